@@ -114,6 +114,27 @@ Proof. apply Inv_frame; simpl; auto; try lia; unfold agg_len; simpl; lia. Qed.
 Lemma Inv_primary s x : Inv s -> Inv (set_primary x s).
 Proof. apply Inv_frame; simpl; auto; try lia; unfold agg_len; simpl; lia. Qed.
 
+Lemma Inv_ka s x : Inv s -> Inv (set_ka x s).
+Proof. apply Inv_frame; simpl; auto; try lia; unfold agg_len; simpl; lia. Qed.
+Lemma Inv_ka_reset s : Inv s -> Inv (ka_reset s).
+Proof. unfold ka_reset. destruct (ka s); auto using Inv_ka. Qed.
+Lemma Inv_ka_close s : Inv s -> Inv (ka_close s).
+Proof. unfold ka_close. destruct (ka s); auto using Inv_ka. Qed.
+Lemma Inv_ka_run s : Inv s -> Inv (ka_run s).
+Proof. unfold ka_run. destruct (ka s); auto. destruct (primary s); auto using Inv_ka. Qed.
+Lemma Inv_reset_primary b s : Inv s -> Inv (reset_primary b s).
+Proof. intros H. unfold reset_primary. destruct b; [apply Inv_primary; auto|apply Inv_ka_reset, Inv_primary; auto]. Qed.
+
+(* field facts of the keep-alive operations *)
+Lemma ka_ops_fields s :
+  (forall f, f = ka_reset \/ f = ka_close \/ f = ka_run ->
+     store (f s) = store s /\ flags (f s) = flags s /\ valid (f s) = valid s /\ pess (f s) = pess s /\
+     committer (f s) = committer s /\ fu (f s) = fu s /\ cmaxc (f s) = cmaxc s /\ cnt (f s) = cnt s /\
+     tasks (f s) = tasks s /\ agg (f s) = agg s /\ primary (f s) = primary s /\ written (f s) = written s).
+Proof.
+  intros f [E|[E|E]]; subst f; unfold ka_reset, ka_close, ka_run; destruct (ka s); try destruct (primary s) eqn:?; simpl; repeat split; auto.
+Qed.
+
 Lemma Inv_agg_start s : Inv s -> Inv (agg_start s).
 Proof.
   unfold agg_start. destruct (agg s) eqn:Ea; auto.
@@ -159,7 +180,7 @@ Lemma Inv_agg_retry s : Inv s -> Inv (agg_retry s).
 Proof.
   intros (HI & HL & HC). unfold agg_retry. destruct (agg s) as [a|] eqn:Ea; [|repeat split; auto].
   cleanup_facts a s. set (s1 := cleanup_redundant a s) in *.
-  set (s2 := if aprim a then set_primary None s1 else s1).
+  set (s2 := if aprim a then reset_primary true s1 else s1).
   assert (E2 : store s2 = store s1 /\ flags s2 = flags s1 /\ valid s2 = valid s1 /\ pess s2 = pess s1 /\
                committer s2 = committer s1 /\ fu s2 = fu s1 /\ cmaxc s2 = cmaxc s1 /\ cnt s2 = cnt s1 /\ tasks s2 = tasks s1)
     by (unfold s2; destruct (aprim a); simpl; repeat split; auto).
@@ -190,10 +211,10 @@ Lemma Inv_agg_cancel s : Inv s -> Inv (agg_cancel s) /\ agg (agg_cancel s) = Non
 Proof.
   intros (HI & HL & HC). unfold agg_cancel. destruct (agg s) as [a|] eqn:Ea; [|repeat split; auto].
   cleanup_facts a s. set (s1 := cleanup_redundant a s) in *.
-  set (s2 := if aprim a || alastprim a then set_primary None s1 else s1).
+  set (s2 := if aprim a || alastprim a then reset_primary false s1 else s1).
   assert (E2 : store s2 = store s1 /\ flags s2 = flags s1 /\ valid s2 = valid s1 /\ pess s2 = pess s1 /\
                committer s2 = committer s1 /\ fu s2 = fu s1 /\ cmaxc s2 = cmaxc s1 /\ cnt s2 = cnt s1 /\ tasks s2 = tasks s1)
-    by (unfold s2; destruct (aprim a || alastprim a); simpl; repeat split; auto).
+    by (unfold s2, reset_primary, ka_reset; destruct (aprim a || alastprim a); simpl; [destruct (ka s1)|]; simpl; repeat split; auto).
   destruct E2 as (Est & Efl & Eva & Epe & Eco & Efu & Ecm & Ecn & Etk).
   set (s3 := match cur a with
              | [] => s2
@@ -233,7 +254,11 @@ Qed.
 (* ---- DoneAggressiveLocking ---- *)
 Lemma Inv_agg_done s : Inv s -> Inv (agg_done s).
 Proof.
-  intros (HI & HL & HC). unfold agg_done. destruct (agg s) as [a|] eqn:Ea; [|repeat split; auto].
+  intros HI0. unfold agg_done. destruct (agg s) as [a|] eqn:Ea; [|auto].
+  assert (HI1 : Inv (if alastprim a && negb (aprim a) then ka_reset s else s)) by (destruct (alastprim a && negb (aprim a)); auto using Inv_ka_reset).
+  assert (Ea1 : agg (if alastprim a && negb (aprim a) then ka_reset s else s) = Some a).
+  { destruct (alastprim a && negb (aprim a)); auto. destruct (ka_ops_fields s ka_reset) as (_&_&_&_&_&_&_&_&_&E&_); auto. congruence. }
+  revert HI1 Ea1. generalize (if alastprim a && negb (aprim a) then ka_reset s else s). clear HI0 Ea s. intros s (HI & HL & HC) Ea.
   cleanup_facts a s. set (s1 := cleanup_redundant a s) in *.
   split; [|split].
   - intros p Hin. simpl in Hin. rewrite CPst in Hin.
@@ -287,35 +312,49 @@ Proof.
 Qed.
 
 (* ---- Rollback ---- *)
+Lemma Inv_of_tasks0 s s' :
+  agg s' = None -> flags s' = flags s -> cnt s' = cnt s -> agg s = None -> cnt_ok s ->
+  (forall p, In p (store s') -> cov_task s' p) -> Inv s'.
+Proof.
+  intros Ha' Hf Hc Ha HC Hcov. split; [|split].
+  - intros p Hp. right. auto.
+  - intros a k e H. congruence.
+  - unfold cnt_ok, agg_len in *. rewrite Ha', Hf, Hc. rewrite Ha in HC. auto.
+Qed.
+
+Lemma Inv_rollback_body s : Inv s -> agg s = None -> Inv (rollback_body s).
+Proof.
+  intros (HI & HL & HC) Hag. unfold rollback_body.
+  set (inner := if (cnt s =? 0)%Z then s else set_store (run_task (TPessRb (flags s) (N.max (fu s) (cmaxc s))) (store s)) s).
+  assert (Ein : flags inner = flags s /\ cnt inner = cnt s /\ agg inner = agg s /\ tasks inner = tasks s /\
+                forall p, In p (store inner) -> In p (store s) /\ (pess s && committer s = true -> cov_task s p)).
+  { unfold inner. destruct (cnt s =? 0)%Z eqn:Ec; simpl; repeat split; auto.
+    - intros Hpc. apply andb_true_iff in Hpc. destruct Hpc as [B2 B3].
+      destruct (HI p H) as [[(B1 & _) Hc]|Ht]; auto. exfalso.
+      destruct p as [k [f'|]]; simpl in Hc; [|tauto].
+      destruct Hc as [[H1 H2]|(a0 & e & Ha0 & _ & _)]; [|congruence].
+      apply Z.eqb_eq in Ec. unfold cnt_ok, agg_len in HC. rewrite Hag, Ec in HC.
+      destruct (flags s); [inversion H1|]. unfold len in HC. simpl in HC. lia.
+    - apply run_task_In in H. tauto.
+    - intros Hpc. apply andb_true_iff in Hpc. destruct Hpc as [B2 B3]. apply run_task_In in H. destruct H as [Hin Hrel].
+      destruct (HI p Hin) as [[(B1 & _) Hc]|Ht]; auto. exfalso.
+      destruct p as [k [f'|]]; simpl in Hc; [|tauto].
+      destruct Hc as [[H1 H2]|(a0 & e & Ha0 & _ & _)]; [|congruence].
+      rewrite releases_pessrb in Hrel; auto. discriminate. }
+  destruct Ein as (E1 & E2 & E3 & E4 & E5).
+  destruct (pess s && committer s) eqn:Epc.
+  - destruct (ka_ops_fields inner ka_close) as (K1&K2&K3&K4&K5&K6&K7&K8&K9&K10&_); auto.
+    apply (Inv_of_tasks0 s); simpl; try congruence.
+    intros p Hp. simpl in Hp. rewrite K1 in Hp. destruct (E5 p Hp) as [_ Hc]. destruct (Hc eq_refl) as (t & T1 & T2).
+    exists t. simpl. rewrite K9, E4. auto.
+  - apply (Inv_of_tasks0 s); simpl; auto.
+    intros p Hp. simpl in Hp. destruct (HI p Hp) as [[(B1 & B2 & B3) _]|Ht].
+    + rewrite B2, B3 in Epc. discriminate.
+    + destruct Ht as (t & T1 & T2). exists t; auto.
+Qed.
+
 Lemma Inv_rollback s : Inv s -> pending s = false -> Inv (rollback s).
 Proof.
   intros HInv Hp. unfold rollback. destruct (valid s) eqn:Ev; simpl; auto. rewrite Hp.
-  destruct (Inv_agg_cancel s HInv) as ((HI & HL & HC) & Hag & Hva).
-  set (s1 := agg_cancel s) in *. unfold rollback_body.
-  split; [|split].
-  - intros p Hin. right.
-    assert (Hin1 : In p (store s1)).
-    { simpl in Hin. destruct (pess s1 && committer s1); [|auto]. destruct (cnt s1 =? 0)%Z; auto.
-      simpl in Hin. apply run_task_In in Hin. tauto. }
-    assert (Htk : tasks (set_valid false
-              (if pess s1 && committer s1 then if (cnt s1 =? 0)%Z then s1
-                 else set_store (run_task (TPessRb (flags s1) (N.max (fu s1) (cmaxc s1))) (store s1)) s1 else s1)) = tasks s1).
-    { destruct (pess s1 && committer s1); [|auto]. destruct (cnt s1 =? 0)%Z; auto. }
-    destruct (HI p Hin1) as [[(B1 & B2 & B3) Hc]|Ht].
-    + exfalso. destruct p as [k [f'|]]; simpl in Hc; [|tauto].
-      destruct Hc as [[H1 H2]|(a0 & e & Ha0 & _ & _)]; [|congruence].
-      rewrite B2, B3 in Hin. simpl in Hin. destruct (cnt s1 =? 0)%Z eqn:Ec.
-      * apply Z.eqb_eq in Ec. unfold cnt_ok, agg_len in HC. rewrite Hag, Ec in HC.
-        destruct (flags s1); [inversion H1|]. unfold len in HC. simpl in HC. lia.
-      * simpl in Hin. apply run_task_In in Hin. destruct Hin as [_ Hrel].
-        rewrite releases_pessrb in Hrel; auto. discriminate.
-    + destruct Ht as (t & Ht1 & Ht2). exists t. rewrite Htk. auto.
-  - intros a k e Ha. exfalso.
-    assert (agg (set_valid false
-              (if pess s1 && committer s1 then if (cnt s1 =? 0)%Z then s1
-                 else set_store (run_task (TPessRb (flags s1) (N.max (fu s1) (cmaxc s1))) (store s1)) s1 else s1)) = None).
-    { destruct (pess s1 && committer s1); [|auto]. destruct (cnt s1 =? 0)%Z; auto. }
-    congruence.
-  - unfold cnt_ok, agg_len in *.
-    destruct (pess s1 && committer s1); [|auto]. destruct (cnt s1 =? 0)%Z; auto.
+  destruct (Inv_agg_cancel s HInv) as (H1 & H2 & H3). apply Inv_rollback_body; auto.
 Qed.
